@@ -121,6 +121,41 @@ CLAIMED = {
          "The encoders' per-byte maps (strconv.IsPrint) are library behaviour.", "DESIGN.md 4/C20"),
 }
 
+# rule families added in the build phase (after the seeded rounds); appended to technique/text
+XC = ("; plus the cross-cutting necessary conditions restricted to this property's packages: lock balance (E1), message ownership (E5), "
+      "condition-variable discipline (wait loops re-check in the loop a condition their closer falsifies, closers broadcast, Signal only with one waiter), "
+      "check-then-act atomicity across critical sections (E3b)")
+EXTRA = {
+ "C01": (" + E5 send-contract per transport Send (incl. deferred Free), success-means-written must-pass rule",
+         " Every transport Send consumes the message exactly when it returns nil and every nil return has written the frame; the length prefix may be read by either complete-read idiom (binary.Read or io.ReadFull+Uint64)."),
+ "C02": (XC + "; state-transition table of the ready list, slice-removal idiom, closed-flag rule",
+         " RemovePipe marks the pipe closed unconditionally and removes it from the ready list by shortening it; the admission test-and-set of PAIR's peer is one critical section."),
+ "C03": (XC + "; REQ timer rules shared with C18.3", " A stale deadline timer never cancels a newer or still current request; Cond.Wait is in a re-checking loop."),
+ "C04": (XC + "; state-transition tables of reqMsg/repMsg/reqID/lastPipe/readyQ, slice-removal idiom, queued-flag pairing, reply-matching shared with C03.1",
+         " An answered context leaves the send queue before its request is cleared; queued is true exactly while the context is in sendQ; a reply with the current id completes the request whichever pipe it arrives on."),
+ "C05": (XC + "; state-transition tables of backtrace/recvPipe (incl. whole-struct copies)", " Only RecvMsg installs a route, only SendMsg clears it, and no context is created by copying another's state."),
+ "C06": (XC + "; fan-out no-bypass (path enumeration in the loop), queue-swap wake-up rule, subscribe no-op only for a byte-equal topic",
+         " Every iteration of a fan-out loop reaches the delivery attempt unless a declared skip condition holds; replacing a context's queue always wakes the receivers blocked on the old one."),
+ "C07": (XC + "; unique-sites table, raw-routing rules shared with C05.4, send-contract, header-split order, context inherits the survey time", ""),
+ "C08": (XC + "; fan-out no-bypass, write-before-MakeUnique", ""),
+ "C09": ("; drop-does-not-disconnect (loop membership of discards)", " An over-limit message is dropped without leaving the receive loop."),
+ "C10": ("; closer-falsifies-wait and closer-broadcasts rules, closed-means-ErrClosed (path-sensitive over select arms and closed flags), E3b lifecycle atomicity, pipe-id pairing, Listen/Close serialisation, inproc close ownership",
+         " Every error-returning socket/context method returns ErrClosed on its own closed flag / close channel; no registration that Close tears down depends on a closed test made in an earlier critical section; every pipe id is released exactly once on both branches of pipe.Close."),
+ "C11": ("; E3b check-then-act atomicity (lifecycle and same-field test-and-set), condition-variable rules, Listen/Close serialisation", ""),
+ "C12": ("; ErrClosed-only-for-own-closed-state in transports, in-progress token released on every return (must-pass)", ""),
+ "C13": ("; pipe-id pairing", ""),
+ "C14": ("; ErrClosed-only-for-own-closed-state in transports (the redial loop stops for good on ErrClosed)", ""),
+ "C15": ("; upgrader configured once, header-split order", ""),
+ "C16": ("; accept loops wait for nothing but Accept (E4 may-block summaries inside the loop), drop-does-not-disconnect, reply-matching shared with C03.1", ""),
+ "C17": ("; send-contract per implementation (incl. deferred Free), write-before-MakeUnique, header restored by a value read before the strip, unique-sites table", ""),
+ "C18": ("; in-progress token released on every return", ""),
+ "C19": ("; queue capacity equals the ...QLen field wherever a queue is built, queue-swap wake-up, refused Device starts no forwarder", ""),
+ "C20": ("; byte (not code-point) iteration, one record per message (must-pass Flush), non-nil empty data", ""),
+}
+for k, (t, x) in EXTRA.items():
+    tech, text, note, ref = CLAIMED[k]
+    CLAIMED[k] = (tech + t, text + x, note, ref)
+
 NOT_YET = "check not built yet (work in progress; planned static rules in DESIGN.md section 4)"
 NA = {}
 
